@@ -3,7 +3,7 @@
    PLAN (C05_start_releases_every_block, proof in HeapSpec.v) and THE DESCRIPTOR HALF FOR EVERY
    HISTORY AND EVERY FAULT PLAN (C05_history_restores_descriptor_table, proof in FdSpec.v); the
    child balance of whole histories under every fault plan is decided by the tie's fault enumeration. *)
-From Verif Require Import Lib Build OptSpec WorldSpec WorldSpec2 LibSpec LibSpec2 ParentSpec StartSpec FdSpec HeapSpec MemSpec.
+From Verif Require Import Lib Build OptSpec WorldSpec WorldSpec2 LibSpec LibSpec2 ParentSpec StartSpec FdSpec MultiSpec HeapSpec MemSpec MultiMem.
 Import Lib.
 From Coq Require Import Lia.
 Local Open Scope Z_scope.
@@ -141,6 +141,22 @@ Theorem C05_history_restores_descriptor_table : forall (ck : rp -> MW unit) ops 
 Proof. exact history_restores_descriptor_table. Qed.
 Print Assumptions C05_history_restores_descriptor_table.
 
+(* THE SAME FOR ANY NUMBER OF HANDLES: reproc_new at any point (allocation failures included),
+   calls on the live handles interleaved in any order, destroys in any order, every fault plan;
+   once the handles still alive have been destroyed as well, the table is what it was.  In between
+   (invariant MI) every descriptor open beyond the initial table is a pipe end of exactly one live
+   handle: no handle ever closes or re-flags another handle's or the caller's descriptors. *)
+Theorem C05_multi_history_restores_descriptor_table : forall (ck : rp -> MW unit) ms w u w',
+  WorldSpec2.wf w -> 0 <= w_cur w -> 0 < w_next_blk w -> (forall q, kp (w_cur w) (ck q)) ->
+  (let* ps := run_mops ck [] ms in destroy_all ps) w = Ret u w' ->
+  pr_fds (curp w') = pr_fds (curp w).
+Proof. exact multi_history_restores_descriptor_table. Qed.
+Print Assumptions C05_multi_history_restores_descriptor_table.
+Theorem C05_multi_history_invariant : forall T c (ck : rp -> MW unit) ms ps w ps' w',
+  MI T c ps w -> (forall q, kp c (ck q)) -> run_mops ck ps ms w = Ret ps' w' -> MI T c ps' w'.
+Proof. intros T c ck ms ps w ps' w'. apply MI_run_mops. Qed.
+Print Assumptions C05_multi_history_invariant.
+
 (* one call of start: after a failure the table is exactly what it was; after a success it differs
    by the handle's own pipe ends only, each on a number that was free before *)
 Theorem C05_start_descriptor_table : forall p argv o src (ck : rp -> MW unit) w r p' w',
@@ -185,6 +201,17 @@ Theorem C05_history_releases_memory : forall (ck : rp -> MW unit) ops w u w',
 Proof. exact history_releases_memory. Qed.
 Print Assumptions C05_history_releases_memory.
 
+(* ... AND FOR ANY NUMBER OF HANDLES, interleaved in any order (same histories as
+   C05_multi_history_restores_descriptor_table) *)
+Theorem C05_multi_history_releases_memory : forall (ck : rp -> MW unit) ms w u w',
+  WorldSpec2.wf w -> 0 <= w_cur w -> w_cur w = w_main w -> 0 < w_next_blk w ->
+  (forall id, w_next_blk w <= id -> heap_live id w = false) ->
+  (forall q, kp (w_cur w) (ck q)) -> (forall q, hk true (ck q)) ->
+  (let* ps := run_mops ck [] ms in destroy_all ps) w = Ret u w' ->
+  forall id, heap_live id w' = heap_live id w.
+Proof. exact multi_history_releases_memory. Qed.
+Print Assumptions C05_multi_history_releases_memory.
+
 (* non-vacuity: start with three pipes + wait + close + stop + destroy on the world above, without
    faults and with a failure injected into the start: the history runs to its end, the table had
    grown in between (four descriptors after the successful start), and is back to its one entry *)
@@ -205,6 +232,25 @@ Definition C05_ex_mem (faults : list (Z * positive)) : bool :=
          match np with None => ret tt | Some p => let* p' := run_hops (fun _ => ret tt) p C05_ex_ops in reproc_destroy p' end) (C05_ex_world faults) with
   | Ret _ w' => forallb (fun id => Bool.eqb (heap_live id w') (id =? 1)) [1; 2; 3; 4; 5; 6; 7; 8; 9; 10; 11; 12; 13; 14; 15; 16]
   | _ => false end.
+Definition C05_ex_mops : list mop :=
+  [MNew; MNew; MCall 0 (HStart (Some [[46; 47; 116]]) C05_ex_opts 0); MCall 1 (HStart (Some [[46; 47; 116]]) C05_ex_opts 0);
+   MCall 0 (HWait 1000); MCall 1 (HClose REPROC_STREAM_IN); MDestroy 0; MNew; MCall 1 (HStart (Some [[46; 47; 116]]) C05_ex_opts 0)].
+Definition C05_ex_multi (faults : list (Z * positive)) : bool :=
+  match (let* ps := run_mops (fun _ => ret tt) [] C05_ex_mops in destroy_all ps) (C05_ex_world faults) with
+  | Ret _ w' => match C05_ex_keys w' with [k] => k =? 0 | _ => false end
+  | _ => false end.
+Definition C05_ex_multi_mid : bool :=
+  match run_mops (fun _ => ret tt) [] C05_ex_mops (C05_ex_world []) with
+  | Ret ps w' => (length ps =? 2)%nat && (6 <=? length (C05_ex_keys w'))%nat
+  | _ => false end.
+Definition C05_ex_multi_mem (faults : list (Z * positive)) : bool :=
+  match (let* ps := run_mops (fun _ => ret tt) [] C05_ex_mops in destroy_all ps) (C05_ex_world faults) with
+  | Ret _ w' => forallb (fun id => Bool.eqb (heap_live id w') (id =? 1)) [1; 2; 3; 4; 5; 6; 7; 8; 9; 10; 11; 12; 13; 14; 15; 16; 17; 18; 19; 20; 21; 22; 23; 24]
+  | _ => false end.
+Example C05_ex_multi_history :
+  C05_ex_multi [] = true /\ C05_ex_multi [(40, 12%positive)] = true /\ C05_ex_multi_mid = true /\
+  C05_ex_multi_mem [] = true /\ C05_ex_multi_mem [(40, 12%positive)] = true /\ C05_ex_multi_mem [(1, 12%positive)] = true.
+Proof. repeat split; vm_compute; reflexivity. Qed.
 Example C05_ex_history :
   fresh_handle (rp_new 1) /\ (forall q : rp, kp 7 (ret tt)) /\ (forall q : rp, hk true (ret tt)) /\
   C05_ex_mem [] = true /\ C05_ex_mem [(0, 12%positive)] = true /\ C05_ex_mem [(28, 12%positive)] = true /\
